@@ -10,10 +10,11 @@ exact arithmetic, grade of e_k = cycle length) and observed with PathMonitor.
 from __future__ import annotations
 
 import itertools
+import math
 
 import numpy as np
 
-from checks.common import hash_tag, to_sparse, canon_value, quiet_call
+from checks.common import hash_tag, to_sparse, canon_value, quiet_call, relayout, xf_build, xf_names
 from qmc import gen as G
 from qmc import oracle as O
 from qmc.loader import load
@@ -124,6 +125,17 @@ def cases(tier, seed):
             for bi in range(2):
                 for pad in (2, 3):
                     out.append({"key": f"midcycle/u={ui}/s={si}/b={bi}/pad={pad}", "cls": "midcycle", "n": 2 + pad, "scale": 1.0, "u": ui, "s": list(sv_), "b": bi, "pad": pad})
+    # ill-conditioned systems (cond 1e7..1e10): only the truthfulness of info.residual is decided there, against an
+    # extended-precision (80-bit) evaluation of ||Ax-b||/||b||
+    for n in (4, 6, 9):
+        for k in (7, 8, 10):
+            for kind in ("hh", "mono"):
+                out.append({"key": f"illcond/n={n}/cond=1e{k}/{kind}", "cls": "illcond", "n": n, "scale": 1.0, "k": k, "kind": kind})
+    # unusual-but-legal system matrices (skipped by run_case when singular or cond > 1e6), generic and unit right-hand sides
+    for n in (2, 3, 4):
+        for nm in xf_names(n, n):
+            for rhs in ("generic", "e0"):
+                out.append({"key": f"xf/n={n}/{nm}/rhs={rhs}", "cls": "xf", "n": n, "scale": 1.0, "xf": nm, "rhs": rhs})
     return out
 
 
@@ -177,6 +189,17 @@ def build(case, seed):
         b = np.zeros((n, 1, 4))
         b[:2] = bvec
         bs.append(("midcycle", b))
+    elif cls == "xf":
+        A, lay = xf_build(case["xf"], n, n, fill)
+        case["_lay"] = lay
+        b = np.zeros((n, 1, 4))
+        if case["rhs"] == "e0":
+            b[0, 0, 0] = 1.0
+        else:
+            b = fill.quat(n, 1, bits=3, lo=-16, hi=16)
+            if not b.any():
+                b[0, 0, 0] = 1.0
+        bs.append((case["rhs"], b))
     elif cls == "neareig":
         lam = [0.01, 1.0, 2.0, -1.5][:n]
         V = G.unitary(case["kind"], n, fill, variant=n)
@@ -219,7 +242,54 @@ def build(case, seed):
 MON_PATTERNS = {"breakdown": r"breakdown = True"}
 
 
+def left4_ld(A):
+    """real 4m x 4n left-regular representation (component-blocked) in extended precision."""
+    w, x, y, z = (A[..., t].astype(np.longdouble) for t in range(4))
+    return np.block([[w, -x, -y, -z], [x, w, -z, y], [y, z, w, -x], [z, -y, x, w]])
+
+
+def run_illcond(case, seed):
+    lib = load()
+    S = lib.solver.QGMRESSolver
+    n, k = case["n"], case["k"]
+    fill = G.Fill(seed, stream=hash_tag(case["key"]))
+    vals = [10.0 ** (-k * t / (n - 1)) for t in range(n)]
+    A = G.with_spectrum(G.unitary(case["kind"], n, fill, variant=1), vals, G.unitary("hh", n, fill, variant=2))
+    b = fill.quat(n, 1, bits=3, lo=-16, hi=16)
+    if not b.any():
+        b[0, 0, 0] = 1.0
+    Aq, bq = G.to_quat(A), G.to_quat(b)
+    AL = left4_ld(A)
+    bL = np.concatenate([b[:, 0, t].astype(np.longdouble) for t in range(4)])
+    fails, states = [], []
+    for prec in ("none", "left_lu"):
+        for tol in (1e-6, 1e-12):
+            tags = {"cls": "illcond", "n": n, "cond_exp": k, "prec": prec, "tol": tol}
+            ok, res = call(S(tol=tol, preconditioner=prec).solve, Aq, bq)
+            if not ok:
+                fails.append(fail("raised", f"{type(res).__name__}: {res}", **tags))
+                continue
+            x = G.from_quat(res[0]).reshape(n, 1, 4)
+            info = res[1]
+            if not O.is_finite(x):
+                continue  # nothing is claimed about the solution at this conditioning
+            xL = np.concatenate([x[:, 0, t].astype(np.longdouble) for t in range(4)])
+            rt = float(np.sqrt(np.sum((AL @ xL - bL) ** 2)) / np.sqrt(np.sum(bL ** 2)))
+            rep = info.get("residual")
+            states.append(digest(case["key"], prec, tol, x))
+            if rep is None or not np.isfinite(rep):
+                fails.append(fail("info.residual_truthful", f"prec={prec} tol={tol:g}: info.residual = {rep!r}", **tags))
+            elif rt > 1e-13 and not (rt / 30.0 <= rep <= rt * 30.0):
+                fails.append(fail("info.residual_truthful", f"prec={prec} tol={tol:g}: info.residual = {rep:.3e}, ||Ax-b||/||b|| evaluated in extended precision = {rt:.3e} (cond 1e{k})", **tags))
+            if info.get("converged") and rt > 30 * tol * (10.0 ** k if prec == "left_lu" else 1.0) + 1e-13:
+                fails.append(fail("converged=>small_residual", f"prec={prec} tol={tol:g}: converged=True with true residual {rt:.3e}", **tags))
+    return {"key": case["key"], "fails": fails, "nontrivial": True, "digest": digest(A, b), "states": states, "transitions": len(states), "traces": 0 if fails else 1,
+            "path": "illcond", "obs": [len(fails)]}
+
+
 def run_case(case, seed):
+    if case["cls"] == "illcond":
+        return run_illcond(case, seed)
     lib = load()
     S = lib.solver.QGMRESSolver
     A, bs = build(case, seed)
@@ -231,10 +301,13 @@ def run_case(case, seed):
     transitions = 0
     traces = 0
     paths = []
+    sv_ = O.svals(A)
+    if len(sv_) and sv_[-1] <= 1e-12 * sv_[0]:
+        condA = math.inf  # singular system: outside the property's domain
     if not np.isfinite(condA) or condA > 1e6:
         return {"key": case["key"], "fails": [], "nontrivial": False, "skipped": "ill-conditioned (cond > 1e6)", "digest": digest(A)}
-    floor = 256 * O.C * O.U * condA * n
-    Aq = G.to_quat(A)
+    floor = 64 * O.U * condA * n * 4  # attainable relative residual of a backward-stable solve is O(u cond); 256 u cond n holds on the pinned tree for every cell and seed tried
+    Aq = relayout(G.to_quat(A), case.get("_lay", "C"))
     for bname, b in bs:
         tags = {"cls": case["cls"], "n": n, "rhs": bname, "scale": case["scale"]}
         bq = G.to_quat(b)
@@ -251,7 +324,9 @@ def run_case(case, seed):
                 return None
             tr = true_res(x)
             rep = info.get("residual")
-            if rep is None or not np.isfinite(rep) or abs(rep - tr) > 1e-9 * max(tr, 1e-300) + 1e-13:
+            # two evaluations of ||Ax-b||/||b|| agree only up to the rounding of the products: 64 u ||A|| ||x|| / ||b||
+            noise = 64 * O.U * (nA * O.fro(x) / nb + 1.0) if nb > 0 else 0.0
+            if rep is None or not np.isfinite(rep) or abs(rep - tr) > 1e-9 * max(tr, 1e-300) + 1e-13 + noise:
                 fails.append(fail("info.residual_truthful", f"{label}: info.residual = {rep!r}, ||Ax-b||/||b|| = {tr!r}", **tags))
             lim = 10 * tol * (max(1.0, condA) if prec == "left_lu" else 1.0) + floor
             if info.get("converged") and tr > lim:
